@@ -30,6 +30,12 @@ type GsfaWriter struct {
 	fullBufferWriterChan chan linkedlog.KeyToOffsetAndSizeAndBlocktime
 	accum                *hashmap.Map[solana.PublicKey, []*linkedlog.OffsetAndSizeAndSlot]
 	offsetsWriter        *indexes.PubkeyToOffsetAndSize_Writer
+	offsetsWriterArgs    struct { // what offsetsWriter was opened with (see Close)
+		epoch   uint64
+		rootCid cid.Cid
+		network indexes.Network
+		tmpDir  string
+	}
 	ctx                  context.Context
 	cancel               context.CancelFunc
 	exiting              *atomic.Bool
@@ -96,6 +102,8 @@ func NewGsfaWriter(
 			return nil, fmt.Errorf("error while opening pubkey-to-offset-and-size writer: %w", err)
 		}
 		index.offsetsWriter = offsetsWriter
+		index.offsetsWriterArgs.epoch, index.offsetsWriterArgs.rootCid = epoch, rootCid
+		index.offsetsWriterArgs.network, index.offsetsWriterArgs.tmpDir = network, tmpDir
 	}
 	go index.fullBufferWriter()
 	return index, nil
@@ -253,6 +261,24 @@ func (a *GsfaWriter) Close() error {
 		{
 			keys := solana.PublicKeySlice(a.offsets.Keys())
 			keys.Sort()
+			if len(keys) > 1_000_000 {
+				// The writer opened in NewGsfaWriter is laid out for a million pubkeys; with many more,
+				// its buckets get too full to be sealed ("hash collision"). Lay it out for the real number.
+				args := a.offsetsWriterArgs
+				if err := a.offsetsWriter.Discard(); err != nil {
+					return fmt.Errorf("error while discarding the pubkey-to-offset-and-size writer: %w", err)
+				}
+				if args.tmpDir != "" {
+					if err := os.MkdirAll(args.tmpDir, 0o755); err != nil {
+						return fmt.Errorf("error while re-creating the temporary directory: %w", err)
+					}
+				}
+				sized, err := indexes.NewWriter_PubkeyToOffsetAndSize_Sized(args.epoch, args.rootCid, args.network, args.tmpDir, uint(len(keys)))
+				if err != nil {
+					return fmt.Errorf("error while opening pubkey-to-offset-and-size writer: %w", err)
+				}
+				a.offsetsWriter = sized
+			}
 			klog.Infof("Writing %d starting offsets for as many pubkeys ...", len(keys))
 			for _, key := range keys {
 				offSize, _ := a.offsets.Get(key)
